@@ -153,6 +153,17 @@ add(
     "DESIGN.md §4 C08",
 )
 
+add(
+    "C11", "fault_enumeration",
+    "Hypothesis over invocations (1..4 files x failure reason x .license / style options x argument order); which files fail is known by construction; whole-tree snapshot before/after",
+    "About 6400 generated invocations per quick run inject one anticipated failure reason (terminator inside the holder under multi-line commenting, "
+    "templates dropping licences / copyright / both, unrecognised extension, unsupported line mode, mutually exclusive options, missing template) into a "
+    "mix of file types; the snapshot delta must touch succeeding files only, failing files and their .license siblings stay untouched / absent, "
+    "succeeding files carry the request, exit status is 1 iff a file failed, and usage errors (exit 2) change nothing.",
+    "Failure reasons are the ones the statement anticipates; crashes on undecodable input are judged by C16.",
+    "DESIGN.md §4 C11",
+)
+
 NOT_BUILT = "check not built yet in this revision of /verif (planned in DESIGN.md §4; property-based testing applies)"
 
 
